@@ -617,6 +617,24 @@ def search_C10_C19(pid, budget):
     if b0 + rest != expo:
         fail(pid, "reader", "overlapping reader with an extra open() after two blocks: block starts %r, expected %r" % (
             [do_.find(b) // 2 for b in b0 + rest], [do_.find(b) // 2 for b in expo]))
+    # the sizes a reader REPORTS (block_size, hop_size, block_dur, hop_dur) are those of the blocks it returns: sizes and rates
+    # whose quotient/product round trip is not exact in binary64 (29 samples at 100 Hz, 15 at 44100 Hz, ...)
+    for (nb, nh, sr_) in ((29, 7, 100), (15, 4, 44100), (23, 23, 44100), (27, 9, 48000), (1001, 250, 8000), (3, 1, 10)):
+        n += 1
+        dd = bytes(i % 251 for i in range(nb * 5))
+        kwr = dict(block_dur=(nb + 0.5) / sr_, sr=sr_, sw=1, ch=1)      # half a sample of margin: exactly nb samples
+        if nh != nb:
+            kwr["hop_dur"] = (nh + 0.5) / sr_
+        rr = AudioReader(dd, **kwr)
+        rr.open()
+        b1, b2 = rr.read(), rr.read()
+        real_block = len(b1)
+        real_hop = dd.find(b2) if nh != nb else real_block
+        rep = (rr.block_size, rr.hop_size)
+        if rep != (real_block, real_hop) or abs(rr.block_dur - real_block / sr_) > 1e-12 or abs(rr.hop_dur - real_hop / sr_) > 1e-12:
+            fail(pid, "reader", "AudioReader(block_dur=%d.5/%d, hop_dur=%d.5/%d): reports block_size=%r hop_size=%r block_dur=%r hop_dur=%r, "
+                 "the blocks it returns have %d samples and advance by %d" % (nb, sr_, nh, sr_, rep[0], rep[1], rr.block_dur, rr.hop_dur,
+                                                                               real_block, real_hop))
     # the Recorder spelling honours max_read exactly like AudioReader(record=True)
     from auditok.util import Recorder
     dr = bytes((i * 5 + 3) % 256 for i in range(80))
